@@ -1,6 +1,7 @@
 (* C17 — property theorems.  Only statements, [exact lemma] and Print Assumptions. *)
 From Coq Require Import ZArith List Sorted.
 From FV Require Import C17.Model C17.Proofs C17.Closure C17.Idempotent C17.IndexMap C17.Gvar.
+From FV Require Import C17.PreservesAll C17.IdempotentRetain C17.IndexMapMax C17.Loca C17.LocaPlan.
 Import ListNotations.
 Open Scope Z_scope.
 
@@ -199,6 +200,167 @@ Theorem c17_gvar_old_rule_refuted :
       /\ gv_read false (gv_stored false (gv_end_offset true lens true true kept i)) <> gv_end_offset true lens true true kept i).
 Proof. exact gvar_old_rule_refuted_l. Qed.
 
+(* ---- round 7 ---- *)
+(* ONE combined end-to-end statement on the abstract font model: for every font, every request and both
+   RETAIN_GIDS settings, whenever the subset's hmtx / glyf / cmap are produced: the tables have the announced
+   shape; every kept glyph g has a new id g' (inverse old_of_new) under which advance and side bearing are the
+   source's - stated also on each side of the long-metrics / short-tail boundary -, its glyph record is the
+   source's with component ids renamed position by position; every kept code point is answered with the
+   renumbered glyph of the source and with nothing else; nothing else is mapped. *)
+Theorem c17_subset_preserves_all : forall F gids unis retain notdef long' lsbs' gl cm,
+  let kept := kept_glyphs F gids unis in
+  NoDup (map fst (f_cmap F)) ->
+  num_output retain kept <= 65535 ->
+  hmtx_subset F retain kept = HTable long' lsbs' ->
+  glyf_subset F retain notdef kept = Some gl ->
+  cmap_subset retain kept (unicode_list F gids unis) = Some cm ->
+  (zlen long' = new_num_h_metrics F retain kept
+   /\ zlen long' + zlen lsbs' = num_output retain kept
+   /\ zlen gl = num_output retain kept)
+  /\
+  (forall g, In g kept ->
+     exists g', glyph_map retain kept g = Some g' /\ 0 <= g' < num_output retain kept
+       /\ old_of_new retain kept g' = Some g
+       /\ hm_advance long' g' = hm_advance (f_long F) g
+       /\ hm_lsb long' lsbs' g' = hm_lsb (f_long F) (f_lsbs F) g
+       /\ (g' < zlen long' -> exists m, znth long' g' = Some m
+             /\ hm_advance (f_long F) g = Some (fst m) /\ hm_lsb (f_long F) (f_lsbs F) g = Some (snd m))
+       /\ (zlen long' <= g' ->
+             znth lsbs' (g' - zlen long') = hm_lsb (f_long F) (f_lsbs F) g
+             /\ hm_advance (f_long F) g = match rev long' with m :: _ => Some (fst m) | [] => None end)
+       /\ ((g <> 0 \/ notdef = true) -> znth gl g' = Some (subset_glyph retain kept (glyph_at F g)))
+       /\ (forall cs h, (g <> 0 \/ notdef = true) -> glyph_at F g = GC cs h -> (forall c, In c cs -> In c kept) ->
+             exists cs', znth gl g' = Some (GC cs' h) /\ length cs' = length cs
+               /\ forall k c, nth_error cs k = Some c ->
+                    exists c', nth_error cs' k = Some c' /\ glyph_map retain kept c = Some c'))
+  /\
+  (forall c g, In (c, g) (f_cmap F) -> (In c unis \/ In g gids) ->
+     exists g', glyph_map retain kept g = Some g' /\ In (c, g') cm /\ forall x, In (c, x) cm -> x = g')
+  /\
+  (forall c x, In (c, x) cm ->
+     exists g, In (c, g) (f_cmap F) /\ (In c unis \/ In g gids) /\ glyph_map retain kept g = Some x).
+Proof. exact subset_preserves_all_l. Qed.
+
+(* idempotence under RETAIN_GIDS: the subset re-read as an abstract font (gaps are empty glyphs) and subsetted
+   again with the SAME request keeps exactly the same ids, the renumbering is the identity on them and the
+   output has the same number of glyphs.  Same scope as c17_subset_idempotent (no COLR/UVS closure, neither
+   run truncated its closure, emptied .notdef not a composite). *)
+Theorem c17_subset_idempotent_retain_gids : forall F gids unis notdef gl long' lsbs' cm,
+  let K := kept_glyphs F gids unis in
+  let F' := subset_afont_retain K gl long' lsbs' cm in
+  let K' := kept_glyphs F' gids unis in
+  f_colr F = None -> f_uvs F = [] ->
+  NoDup (map fst (f_cmap F)) -> NoDup (map fst cm) -> 0 < f_n F ->
+  glyf_subset F true notdef K = Some gl ->
+  cmap_subset true K (unicode_list F gids unis) = Some cm ->
+  (notdef = true \/ forall cs h, glyph_at F 0 <> GC cs h) ->
+  (forall g cs h c, In g K -> glyph_at F g = GC cs h -> In c cs -> In c K) ->
+  (forall i cs h c, In i K' -> glyph_at F' i = GC cs h -> In c cs -> In c K') ->
+  K' = K
+  /\ (forall g, In g K -> glyph_map true K' g = Some g)
+  /\ num_output true K' = num_output true K.
+Proof. exact subset_idempotent_retain_l. Qed.
+
+(* IndexMapSubsetPlan::new records, for every entry it will later remap (new gid below mapCount), its outer
+   index, its inner index in that subtable's inner set, and a per-subtable maximum that dominates the inner
+   index and is itself a member of the set - for an explicit index map whose outer indexes name existing
+   ItemVariationData subtables and strictly ascending new gids.  This closes the hypotheses
+   `In mx imap`, `0 <= i <= mx` of c17_indexmap_entry_roundtrip. *)
+Theorem c17_indexmap_max_covers : forall b tbl bypass nvd n2o outers sets p outers' sets',
+  let m := Some (b, tbl) in
+  zlen sets = nvd ->
+  StronglySorted Z.lt (map fst n2o) ->
+  (forall g old, In (g, old) n2o -> 0 <= fst (im_val m old) < nvd /\ 0 <= snd (im_val m old)) ->
+  plan_new m bypass nvd n2o outers sets = Some (p, outers', sets') ->
+  zlen (ip_max_inners p) = nvd /\ zlen sets' = nvd
+  /\ forall g old, In (g, old) n2o -> g < ip_map_count p ->
+       let o := fst (im_val m old) in let i := snd (im_val m old) in
+       In o outers'
+       /\ exists mx s, znth (ip_max_inners p) o = Some mx /\ znth sets' o = Some s
+                       /\ 0 <= i <= mx /\ In i s /\ In mx s.
+Proof. exact indexmap_max_covers_l. Qed.
+(* ... hence every entry the plan remaps is read back unchanged, with no hypothesis on the recorded maxima *)
+Theorem c17_indexmap_plan_entry_roundtrip : forall b tbl bypass nvd n2o outers sets p outers' sets',
+  let m := Some (b, tbl) in
+  zlen sets = nvd ->
+  StronglySorted Z.lt (map fst n2o) ->
+  (forall g old, In (g, old) n2o -> 0 <= fst (im_val m old) < nvd /\ 0 <= snd (im_val m old)) ->
+  plan_new m bypass nvd n2o outers sets = Some (p, outers', sets') ->
+  forall g old, In (g, old) n2o -> g < ip_map_count p ->
+  let o := fst (im_val m old) in let i := snd (im_val m old) in
+  forall inner_maps s i' o',
+  znth sets' o = Some s -> znth inner_maps o = Some s -> zlen inner_maps = nvd ->
+  StronglySorted Z.lt s -> (forall x, In x s -> 0 <= x) ->
+  index_of i s 0 = Some i' -> 0 <= o' ->
+  let ibc := inner_bit_count p inner_maps in
+  im_unpack ibc (im_pack ibc o' i') = (o', i').
+Proof. exact indexmap_plan_entry_roundtrip_l. Qed.
+
+(* loca (klippa glyf_loca.rs: format decision, write_glyf_loca, padded_size): for strictly ascending new ids
+   inside [0, nout) and non-negative glyph lengths: the short format is chosen iff the padded total is below
+   0x1FFFF; the offsets read back are the prefix sums of the padded glyph lengths (long format; short format
+   while the u16 running offset fits); in the short format the range read back for a glyph is exactly where
+   its bytes and pad byte were embedded; in the long format only when every length is even (the pad byte is
+   not written: c17_loca_long_unpadded_refuted); gaps get empty ranges. *)
+Theorem c17_loca_offsets_exact : forall nout ents, 0 <= nout -> loca_wf nout ents ->
+  ((loca_format ents = 0 <-> loca_total ents <= 131070) /\ (loca_format ents = 1 <-> 131070 < loca_total ents))
+  /\
+  (loca_format ents = 1 -> loca_total ents <= 4294967295 ->
+     exists offs, loca_subset nout ents = LTable 1 offs /\ zlen offs = nout + 1
+       /\ loca_read 1 offs 0 = Some 0
+       /\ forall i, 0 <= i < nout -> loca_read 1 offs (i + 1) = Some (loca_end ents i))
+  /\
+  (loca_total ents <= 65535 ->
+     exists offs, loca_subset nout ents = LTable 0 offs /\ zlen offs = nout + 1
+       /\ loca_read 0 offs 0 = Some 0
+       /\ forall i, 0 <= i < nout -> loca_read 0 offs (i + 1) = Some (loca_end ents i))
+  /\
+  (forall gid pos len, In (gid, (pos, len)) (glyf_starts true ents 0) ->
+     pos = loca_end ents (gid - 1) /\ loca_end ents gid = pos + loca_pad len /\ len <= loca_pad len <= len + 1)
+  /\
+  ((forall g l, In (g, l) ents -> l mod 2 = 0) ->
+   forall gid pos len, In (gid, (pos, len)) (glyf_starts false ents 0) ->
+     pos = loca_end ents (gid - 1) /\ loca_end ents gid = pos + loca_pad len /\ len <= loca_pad len <= len + 1)
+  /\
+  (forall i, 0 <= i -> ~ In i (map fst ents) -> loca_end ents i = loca_end ents (i - 1)).
+Proof. exact loca_offsets_exact_all_l. Qed.
+(* ... and the entries the model derives from the plan (what the shards compare with klippa's loca bytes) are
+   well-formed, so the statement holds for the model's prediction for every font, request and flags *)
+Theorem c17_loca_model_exact : forall F glens gids unis flags,
+  (forall p, In p glens -> 0 <= fst p /\ 0 <= snd p) ->
+  let kept := kept_glyphs F gids unis in
+  let nout := num_output (flag_retain flags) kept in
+  let ents := loca_entries F glens (flag_retain flags) (flag_notdef flags) (flag_nohint flags) kept in
+  loca_wf nout ents /\ 0 <= nout
+  /\ (loca_format ents = 1 -> loca_total ents <= 4294967295 ->
+        exists offs, loca_model F glens gids unis flags = LTable 1 offs /\ zlen offs = nout + 1
+          /\ loca_read 1 offs 0 = Some 0
+          /\ forall i, 0 <= i < nout -> loca_read 1 offs (i + 1) = Some (loca_end ents i))
+  /\ (loca_total ents <= 65535 ->
+        exists offs, loca_model F glens gids unis flags = LTable 0 offs /\ zlen offs = nout + 1
+          /\ loca_read 0 offs 0 = Some 0
+          /\ forall i, 0 <= i < nout -> loca_read 0 offs (i + 1) = Some (loca_end ents i)).
+Proof. exact loca_model_exact_l. Qed.
+(* known finding C17:glyf-short-loca-u16-offset-overflow, characterised: with every glyph below 64 KiB, the short
+   format is chosen up to 0x1FFFE bytes but the u16 running offset overflows (panic) as soon as the total
+   exceeds 0xFFFF *)
+Theorem c17_loca_short_overflow_panics : forall nout ents, loca_wf nout ents ->
+  (forall g l, In (g, l) ents -> loca_pad l <= 65535) ->
+  65535 < loca_total ents <= 131070 -> loca_subset nout ents = LPanic.
+Proof. exact loca_short_overflow_panics_l. Qed.
+(* known finding C17:glyf-long-loca-unpadded-glyph-data: without the evenness hypothesis the long-format range
+   statement is false of the faithful model *)
+Theorem c17_loca_long_unpadded_refuted : exists nout ents offs gid pos len,
+  loca_wf nout ents /\ loca_subset nout ents = LTable 1 offs /\
+  In (gid, (pos, len)) (glyf_starts false ents 0) /\ loca_read 1 offs gid <> Some pos.
+Proof. exact loca_long_unpadded_refuted_l. Qed.
+(* same finding class as the u16 overflow: a single glyph of >= 64 KiB wraps in `padded_len as u16` WITHOUT a panic
+   and is given a wrong (here empty) range *)
+Theorem c17_loca_short_wrap_refuted : exists nout ents offs,
+  loca_wf nout ents /\ loca_subset nout ents = LTable 0 offs /\
+  loca_read 0 offs 1 <> Some (loca_end ents 0).
+Proof. exact loca_short_wrap_refuted_l. Qed.
+
 Print Assumptions c17_closure_contains_requested.
 Print Assumptions c17_closure_component_closed.
 Print Assumptions c17_closure_component_closed_partial.
@@ -221,3 +383,12 @@ Print Assumptions c17_gvar_offsets_roundtrip.
 Print Assumptions c17_gvar_format_choice_sufficient.
 Print Assumptions c17_gvar_short_covers_data.
 Print Assumptions c17_gvar_old_rule_refuted.
+Print Assumptions c17_subset_preserves_all.
+Print Assumptions c17_subset_idempotent_retain_gids.
+Print Assumptions c17_indexmap_max_covers.
+Print Assumptions c17_indexmap_plan_entry_roundtrip.
+Print Assumptions c17_loca_offsets_exact.
+Print Assumptions c17_loca_model_exact.
+Print Assumptions c17_loca_short_overflow_panics.
+Print Assumptions c17_loca_long_unpadded_refuted.
+Print Assumptions c17_loca_short_wrap_refuted.
